@@ -318,7 +318,7 @@ func c18prop(r *simkit.Run) {
 
 	latencies := []time.Duration{5 * time.Millisecond, 50 * time.Millisecond, 500 * time.Millisecond, 5 * time.Second}
 	statuses := []int{200, 200, 201, 404, 500, 502, 503, 504, 0}
-	nops := rapid.IntRange(5, 100).Draw(rt, "ops")
+	nops := rapid.IntRange(5, deep(100, 350)).Draw(rt, "ops")
 	longCycles := rapid.IntRange(0, 4).Draw(rt, "long-cycles") == 0
 	for i := 0; i < nops; i++ {
 		var kinds []string
